@@ -1,5 +1,208 @@
 import Adb.Spec.Verdict
-/- C13 — theorems follow. -/
+/-
+  C13 — Redirect result is the best permitted matching redirect resource.
+  `chooseRedirect` is the loop of `check_parameterised` over the matching redirect rules;
+  `Spec.redirectChoices` is the relational reference: the resources named by *a* maximum-priority
+  matching redirect option that no matching redirect exception names.
+-/
 namespace Adb.Net
-theorem placeholder_C13 : True := trivial
+open Adb Adb.Net.Spec
+
+private def pickStep (acc : Option (Str × Int)) (c : Str × Int) : Option (Str × Int) :=
+  match acc with
+  | some (_, p1) => if c.2 > p1 then some c else acc
+  | none => some c
+
+private theorem pick_inv (cs : List (Str × Int)) (acc : Option (Str × Int)) :
+    (cs.foldl pickStep acc = none ↔ (acc = none ∧ cs = [])) ∧
+    (∀ r, cs.foldl pickStep acc = some r →
+      (acc = some r ∨ r ∈ cs) ∧ (∀ c ∈ cs, c.2 ≤ r.2) ∧ (∀ a, acc = some a → a.2 ≤ r.2)) := by
+  induction cs generalizing acc with
+  | nil =>
+    refine ⟨by simp, ?_⟩
+    intro r h
+    simp only [List.foldl_nil] at h
+    refine ⟨Or.inl h, by simp, ?_⟩
+    intro a ha; rw [h] at ha; cases ha; exact Int.le_refl _
+  | cons c cs ih =>
+    simp only [List.foldl_cons]
+    obtain ⟨ih1, ih2⟩ := ih (pickStep acc c)
+    constructor
+    · rw [ih1]
+      constructor
+      · rintro ⟨h, _⟩
+        unfold pickStep at h
+        cases acc with
+        | none => simp at h
+        | some a => obtain ⟨r0, p1⟩ := a; simp only at h; split at h <;> simp at h
+      · rintro ⟨_, h⟩; simp at h
+    · intro r h
+      obtain ⟨hmem, hmax, hacc⟩ := ih2 r h
+      cases acc with
+      | none =>
+        simp only [pickStep] at hmem hacc
+        refine ⟨?_, ?_, by simp⟩
+        · rcases hmem with h1 | h1
+          · right; simp only [Option.some.injEq] at h1; subst h1; exact List.mem_cons_self ..
+          · right; exact List.mem_cons_of_mem _ h1
+        · intro x hx
+          rcases List.mem_cons.1 hx with rfl | hx
+          · exact hacc _ rfl
+          · exact hmax x hx
+      | some a =>
+        obtain ⟨r0, p1⟩ := a
+        simp only [pickStep] at hmem hacc
+        by_cases hc : c.2 > p1
+        · simp only [hc, if_true] at hmem hacc
+          refine ⟨?_, ?_, ?_⟩
+          · rcases hmem with h1 | h1
+            · right; simp only [Option.some.injEq] at h1; subst h1; exact List.mem_cons_self ..
+            · right; exact List.mem_cons_of_mem _ h1
+          · intro x hx
+            rcases List.mem_cons.1 hx with rfl | hx
+            · exact hacc _ rfl
+            · exact hmax x hx
+          · intro a' ha'
+            simp only [Option.some.injEq] at ha'; subst ha'
+            have := hacc c rfl
+            simp only at this ⊢
+            omega
+        · simp only [hc, if_false] at hmem hacc
+          refine ⟨?_, ?_, ?_⟩
+          · rcases hmem with h1 | h1
+            · left; exact h1
+            · right; exact List.mem_cons_of_mem _ h1
+          · intro x hx
+            rcases List.mem_cons.1 hx with rfl | hx
+            · have := hacc (r0, p1) rfl; simp only at this; omega
+            · exact hmax x hx
+          · intro a' ha'; exact hacc a' ha'
+
+theorem chooseRedirect_eq (matched : List Rule) :
+    chooseRedirect matched = ((redirectCands matched).foldl pickStep none).map (·.1) := by
+  unfold chooseRedirect redirectCands
+  simp only [List.foldl_map]
+  congr 1
+
+/-- **sound**: the chosen resource is named by a matching, unexcepted redirect option whose
+    priority is maximal among all matching unexcepted redirect options. -/
+theorem redirect_sound (matched : List Rule) (res : Str) (h : chooseRedirect matched = some res) :
+    res ∈ Spec.redirectChoices matched := by
+  rw [chooseRedirect_eq] at h
+  cases hf : (redirectCands matched).foldl pickStep none with
+  | none => simp [hf] at h
+  | some r =>
+    simp only [hf, Option.map_some, Option.some.injEq] at h
+    obtain ⟨hmem, hmax, _⟩ := (pick_inv (redirectCands matched) none).2 r hf
+    have hr : r ∈ redirectCands matched := by rcases hmem with h1 | h1; simp at h1; exact h1
+    unfold Spec.redirectChoices
+    simp only [List.mem_filterMap]
+    refine ⟨r, hr, ?_⟩
+    have : ((redirectCands matched).all fun x => decide (x.2 ≤ r.2)) = true := by
+      simp only [List.all_eq_true, decide_eq_true_eq]; exact hmax
+    simp only [this, if_true, h]
+
+/-- **complete**: there is no redirect only when no matching unexcepted redirect option exists. -/
+theorem redirect_none_iff (matched : List Rule) :
+    chooseRedirect matched = none ↔ Spec.redirectChoices matched = [] := by
+  rw [chooseRedirect_eq]
+  simp only [Option.map_eq_none_iff]
+  rw [(pick_inv (redirectCands matched) none).1]
+  simp only [true_and]
+  unfold Spec.redirectChoices
+  constructor
+  · intro h; simp only [h, List.filterMap_nil]
+  · intro h
+    -- a maximal element exists in any non-empty candidate list
+    cases hc : redirectCands matched with
+    | nil => rfl
+    | cons c cs =>
+      exfalso
+      have hne : (redirectCands matched).foldl pickStep none ≠ none := by
+        rw [Ne, (pick_inv (redirectCands matched) none).1]; simp [hc]
+      cases hf : (redirectCands matched).foldl pickStep none with
+      | none => exact hne hf
+      | some r =>
+        have hs : chooseRedirect matched = some r.1 := by rw [chooseRedirect_eq, hf]; rfl
+        have := redirect_sound matched r.1 hs
+        unfold Spec.redirectChoices at this
+        rw [h] at this; simp at this
+
+/-- a resource that requires any permission, or is of a non-redirectable kind, is never served -/
+theorem permissioned_never_redirected (st : Store) (ident url : Str) (h : st.redirect ident = some url) :
+    ∃ r, st.find ident = some r ∧ r.permission = 0 ∧ ¬ (Gen.noRedirectKinds.contains r.kind = true) ∧
+      url = "data:".toList ++ r.mime ++ ";base64,".toList ++ r.content := by
+  unfold Store.redirect at h
+  cases hf : st.find ident with
+  | none => simp [hf] at h
+  | some r =>
+    simp only [hf] at h
+    split at h
+    · simp at h
+    · rename_i hp
+      split at h
+      · simp at h
+      · rename_i hk
+        split at h
+        · simp at h
+        · simp only [Option.some.injEq] at h
+          refine ⟨r, rfl, ?_, hk, h.symm⟩
+          simpa using hp
+
+/-- a missing resource gives no redirect -/
+theorem missing_resource_no_redirect (st : Store) (ident : Str) (h : st.find ident = none) :
+    st.redirect ident = none := by
+  unfold Store.redirect; simp [h]
+
+/-- **`redirect-rule` alone never blocks**: such a rule is in none of the blocking categories
+    (it is only consulted for the redirect field), whatever else the list contains. -/
+theorem redirect_rule_never_blocks (f : Rule) (hr : f.isRedirect = true) (hb : f.alsoBlockRedirect = false)
+    (hi : f.isImportant = false) :
+    cat f ≠ .important ∧ cat f ≠ .tagged ∧ cat f ≠ .normal := by
+  unfold cat
+  simp only [hr, hb, hi]
+  split
+  · simp
+  · split
+    · simp
+    · split
+      · simp
+      · split <;> simp
+
+/-- **`redirect` also blocks** (when it carries no other category-changing option) -/
+theorem redirect_blocks (f : Rule) (hr : f.isRedirect = true) (hb : f.alsoBlockRedirect = true)
+    (h1 : f.isCsp = false) (h2 : f.isRemoveparam = false) (h3 : f.isGenericHide = false)
+    (h4 : f.isException = false) (h5 : f.isImportant = false) : cat f = .normal := by
+  unfold cat; simp [hr, hb, h1, h2, h3, h4, h5]
+
+/-- **the redirect is independent of whether the request ends up blocked**: every admissible verdict's
+    redirect field is computed from the matching redirect rules alone. -/
+theorem redirect_independent_of_block (rules : List Rule) (tags : List Str) (st : Store) (q : Request)
+    (hs : q.isSupported = true) (v : Verdict) (hv : v ∈ Spec.verdicts rules tags st q) :
+    let choices := Spec.redirectChoices (Spec.hits ((Spec.live rules).filter Rule.isRedirect) q [])
+    (choices = [] ∧ v.redirect = none) ∨ (∃ res ∈ choices, v.redirect = st.redirect res) := by
+  unfold Spec.verdicts at hv
+  simp only [hs, Bool.not_true, Bool.false_eq_true, if_false] at hv
+  simp only [List.mem_map] at hv
+  obtain ⟨rd, hrd, rfl⟩ := hv
+  simp only
+  split at hrd
+  · rename_i he
+    left
+    simp only [List.mem_singleton] at hrd
+    exact ⟨by simpa using he, hrd⟩
+  · right
+    simp only [List.mem_map] at hrd
+    obtain ⟨res, hres, rfl⟩ := hrd
+    exact ⟨res, hres, rfl⟩
+
+/-! ### priority parsing: concrete behaviour of the spellings the property lists -/
+example : parseRedirect "noop.js:10".toList = ("noop.js".toList, 10) := by decide
+example : parseRedirect "noop.js:-5".toList = ("noop.js".toList, -5) := by decide
+example : parseRedirect "noop.js:+5".toList = ("noop.js".toList, 5) := by decide
+example : parseRedirect "noop.js:x".toList = ("noop.js:x".toList, 0) := by decide
+example : parseRedirect "noop.js:".toList = ("noop.js:".toList, 0) := by decide
+example : parseRedirect "noop.js".toList = ("noop.js".toList, 0) := by decide
+example : parseRedirect "a:99999999999".toList = ("a:99999999999".toList, 0) := by decide
+
 end Adb.Net
